@@ -96,16 +96,20 @@ inductive PErr where
   deriving Repr, DecidableEq
 
 /-- `parse_str` / `parse_bytes`: the payload of a definite-length string, or the concatenation of
-the definite-length segments of an indefinite one up to the break -/
-def segments (isText : Bool) : Nat → List Item → Bytes → Except PErr (Bytes × List Item)
-  | 0, _, _ => .error .fuel
-  | fuel + 1, items, acc =>
+the definite-length segments of an indefinite one up to the break.  ciborium's `Segments::pull`
+keeps a nesting counter: an indefinite-length header of the same kind inside an indefinite string
+opens another level that its own break closes (`nested`, 1 for the outermost level). -/
+def segments (isText : Bool) : Nat → Nat → List Item → Bytes → Except PErr (Bytes × List Item)
+  | 0, _, _, _ => .error .fuel
+  | fuel + 1, nested, items, acc =>
     match items with
-    | .h .brk :: rest => .ok (acc, rest)
+    | .h .brk :: rest => if nested ≤ 1 then .ok (acc, rest) else segments isText fuel (nested - 1) rest acc
+    | .h (.text none) :: rest => if isText then segments isText fuel (nested + 1) rest acc else .error .lex
+    | .h (.bytes none) :: rest => if !isText then segments isText fuel (nested + 1) rest acc else .error .lex
     | .h (.text (some n)) :: .raw b :: rest =>
-      if isText && b.length == n then segments isText fuel rest (acc ++ b) else .error .lex
+      if isText && b.length == n then segments isText fuel nested rest (acc ++ b) else .error .lex
     | .h (.bytes (some n)) :: .raw b :: rest =>
-      if !isText && b.length == n then segments isText fuel rest (acc ++ b) else .error .lex
+      if !isText && b.length == n then segments isText fuel nested rest (acc ++ b) else .error .lex
     | _ => .error .lex
 
 def payload (isText : Bool) (len : Option Nat) (fuel : Nat) (items : List Item) :
@@ -115,7 +119,7 @@ def payload (isText : Bool) (len : Option Nat) (fuel : Nat) (items : List Item) 
     match items with
     | .raw b :: rest => if b.length == n then .ok (b, rest) else .error .lex
     | _ => .error .lex
-  | none => segments isText fuel items []
+  | none => segments isText fuel 1 items []
 
 /-- `biguint` -/
 def biguint (fuel : Nat) (items : List Item) : Except PErr (Nat × List Item) :=
